@@ -297,7 +297,13 @@ class Interp:
             if n["op"] == "*":
                 return deref(self.ev(n["e"], env))
             if n["op"] == "!":
-                return not self.truth(self.ev(n["e"], env))
+                v = deref(self.ev(n["e"], env))
+                if isinstance(v, int) and not isinstance(v, bool):
+                    # bitwise not on an integer of the node's type
+                    bits, signed = self.INT_BITS.get(self.C.S(n.get("ty")) or "", (64, False))
+                    r = ~v & ((1 << bits) - 1)
+                    return r - (1 << bits) if signed and r >= (1 << (bits - 1)) else r
+                return not self.truth(v)
             if n["op"] == "-":
                 v = deref(self.ev(n["e"], env))
                 if isinstance(v, int) and not isinstance(v, bool):
@@ -386,7 +392,10 @@ class Interp:
             v = self.ev(n["e"], env)
             if "op" in n:
                 cur = self.ev(n["place"], env)
-                if n["op"] in ("&", "&=") or n["op"].startswith("&"):
+                c0, v0 = deref(cur), deref(v)
+                if isinstance(c0, int) and isinstance(v0, int) and not isinstance(c0, bool) and not isinstance(v0, bool):
+                    v = self.binop(n["op"].rstrip("="), c0, v0, n)      # integer compound assignment (|=, &=, +=, <<=, ...)
+                elif n["op"] in ("&", "&=") or n["op"].startswith("&"):
                     v = self.truth(cur) and self.truth(v)
                 elif n["op"].startswith("|"):
                     v = self.truth(cur) or self.truth(v)
@@ -591,6 +600,21 @@ class Interp:
             return {"<": a < b, "<=": a <= b, ">": a > b, ">=": a >= b}[op]
         if op == "+" and isinstance(l, str) and isinstance(r, str):
             return l + r                  # String + &str
+        if op in ("&", "|", "^", "<<", ">>") and isinstance(l, int) and isinstance(r, int) and not isinstance(l, bool) and not isinstance(r, bool):
+            ty = (self.C.S(n.get("ty")) or "") if isinstance(n, dict) else ""
+            bits, signed = self.INT_BITS.get(ty, (64, False))
+            if op in ("<<", ">>") and not 0 <= r < bits:
+                raise PanicReached("shift amount out of range")
+            v = (l & r) if op == "&" else (l | r) if op == "|" else (l ^ r) if op == "^" else (l << r) if op == "<<" else (l >> r)
+            v &= (1 << bits) - 1          # bits shifted out are lost; results stay within the operand type
+            return v - (1 << bits) if signed and v >= (1 << (bits - 1)) else v
+        if op in ("/", "%") and isinstance(l, int) and isinstance(r, int) and not isinstance(l, bool) and not isinstance(r, bool):
+            if r == 0:
+                raise PanicReached("division by zero")
+            q = abs(l) // abs(r) * (1 if (l >= 0) == (r >= 0) else -1)      # Rust truncates toward zero
+            return q if op == "/" else l - q * r
+        if op in ("&", "|", "^") and isinstance(l, bool) and isinstance(r, bool):
+            return {"&": l and r, "|": l or r, "^": l != r}[op]
         if op in ("+", "-", "*") and isinstance(l, int) and isinstance(r, int) and not isinstance(l, bool):
             v = {"+": l + r, "-": l - r, "*": l * r}[op]
             if v < 0:
